@@ -3,6 +3,10 @@
 package pub
 
 import (
+	"servitor/hypertext"
+	"servitor/markdown"
+	"servitor/plaintext"
+	"servitor/gemtext"
 	"sync"
 	"crypto/sha1"
 	"encoding/hex"
@@ -684,6 +688,7 @@ func TestVerifMarkup(t *testing.T) {
 	defer out.Close()
 	rng := verifkit.Rand()
 	defer verifNarrow(out, rng, in.Random)
+	defer verifDirectRenders(out)
 	docs := in.Docs
 	/* quoted (preformatted) material between links - in every markup that can say it */
 	tx := func() verifNode { return verifNode{T: "txt"} }
@@ -848,6 +853,54 @@ func TestVerifMarkup(t *testing.T) {
 					"doc": verifkit.Clip(real.text, 200)})
 				out.Emit(verifkit.M{"ev": "out", "kind": "render-" + real.markup, "chk": []string{"noctl", "neutral", "width"}, "w": w, "h": 0,
 					"toks": verifkit.Toks(rendered, nil), "expect": verifkit.M{}, "src": verifkit.Clip(real.text, 200)})
+			}
+		}
+	}
+}
+
+/*
+	The four renderers called directly with text as it never comes through the JSON accessors (which expand tabs and
+	replace malformed bytes first): tabs near the end of a line, bytes that are no UTF-8.  Every line of every rendering
+	at every width from 1 to 40 has at most that many characters (one per character or stray byte).
+*/
+func verifDirectRenders(out *verifkit.Trace) {
+	type renderer interface{ Render(int) string }
+	texts := []string{"\tone\ttwo\tthree four five six seven", "a line with a tab\tnear its end", "col1\tcol2\tcol3\tcol4\tcol5\tcol6", "caf\xe9 au lait, d\xe9j\xe0 vu, na\xefve r\xe9sum\xe9",
+		"\xe6\x97 broken \xf0\x9f tails \xc3", "```\n\tindented\tcode\twith\ttabs\n```\nafter\tthe\tblock", "=> https://x.example/a\tlabel\twith\ttabs", "> quote\twith\ttabs and more words to fill the line",
+		"\xff\xfe\xfd\xfc\xfb\xfa 0123456789 0123456789"}
+	for _, text := range texts {
+		for name, build := range map[string]func(string) (renderer, error){
+			"gemtext":   func(t string) (renderer, error) { m, _, err := gemtext.NewMarkup(t); return m, err },
+			"plaintext": func(t string) (renderer, error) { m, _, err := plaintext.NewMarkup(t); return m, err },
+			"markdown":  func(t string) (renderer, error) { m, _, err := markdown.NewMarkup(t); return m, err },
+			"html":      func(t string) (renderer, error) { m, _, err := hypertext.NewMarkup("<p>" + t + "</p><pre>" + t + "</pre>"); return m, err },
+		} {
+			m, err := build(text)
+			if err != nil {
+				continue
+			}
+			for w := 1; w <= 40; w++ {
+				var rendered string
+				if panicked, _ := verifkit.Try(func() { rendered = m.Render(w) }); panicked {
+					continue /* a crash is C06's matter */
+				}
+				toks := []verifkit.Tok{}
+				for i, line := range strings.Split(rendered, "\n") {
+					if i > 0 {
+						toks = append(toks, verifkit.Tok{T: "nl"})
+					}
+					n := 0
+					for _, c := range verifkit.Cells(line) {
+						if c.K != "nl" {
+							n++
+						}
+					}
+					if n > 0 {
+						toks = append(toks, verifkit.Tok{T: "ch", N: n})
+					}
+				}
+				out.Emit(verifkit.M{"ev": "out", "kind": "render-" + name + " (called directly)", "chk": []string{"width"}, "w": w, "h": 0, "toks": toks, "expect": verifkit.M{},
+					"src": verifkit.Clip(strings.ToValidUTF8(text, "?"), 120)})
 			}
 		}
 	}
